@@ -11,7 +11,7 @@
     On member lists in which every member has a key that is a C string (no zero byte — every key read
     from a string block is one), both value-level sorts return [Ok (isort (vle cs) l)] where
     [vle cs x y := key_le cs (vkey x) (vkey y)] is the SAME order [key_le] that [sort_spec] uses, read on
-    the key of the value-level node.  No forest, no heap here (see TierBridge.v for the connection). *)
+    the key of the value-level node.  No forest, no heap here (see TierBridgeLemmas.v for the connection). *)
 From CJ Require Import Base Dbl Tree CompareDefs SortDefs SortSpec.
 From CJ Require PatchDefs MergeDefs.
 From stdpp Require Import list sorting.
